@@ -79,6 +79,11 @@ TEXTS = {
         "level_text": "Exploration: 180k (quick) / 2.7M (thorough) generated cases over type lists {gray8, rgb8, bgr8, rgb8 planar, rgba8, gray16, rgb16} and {rgb8 planar, gray8, cmyk8, rgb8} (plus a sub-list for converting assignment), shapes 0..7. Transformations: all 10 flip/rotate/transpose/subimage/subsample overloads, nth_channel and three colour conversions, applied to view()/const_view() directly and after programs of up to 4 transformations. Algorithms: all 15 overloads of copy_pixels, copy_and_convert_pixels (with and without converter), equal_pixels, fill_pixels, for_each_pixel, resample_pixels over EVERY ordered pair of alternatives within and across the lists, on derived (stepped, flipped, transposed, offset) source and destination views, incl. aliasing operands for equal_pixels; whole destination root compared with a twin processed by the concrete algorithm. Value semantics: deep copy/assignment/equality of any_image (also from concrete images and sub-list variants), shallow copy/equality of any_image_view, recreate (both overloads, alignment) keeps the held type.",
         "level_note": "Differential against the concrete operation (that is what the property states); the concrete operations themselves are decided by C01-C04 and C09. equal_pixels is additionally compared with a per-pixel value comparison. resample is exercised with the nearest-neighbour sampler and integer translations only (C17 covers samplers).",
     },
+    "C15": {
+        "technique": "rapidcheck-generated (function, kernel, centre, boundary option, shape, type combination, placement) cases against the written-out correlation/convolution sums (64-bit exact for integer pixels, 1e-5 relative for float), source and destination in guard-page buffers, whole destination compared (decides 'untouched')",
+        "level_text": "Exploration: 40k (quick) / 670k (thorough) cases: correlate_rows/cols and convolve_rows/cols with dynamic kernels of 1..9 taps and fixed kernels of 1/3/5/7 taps, EVERY centre position, all five boundary options plus the defaulted argument, widths and heights 0..12 (narrower than the kernel and empty included), seven pixel-type combinations (gray8/rgb8/rgb8 planar/gray16/gray8s with int32 accumulators, gray32f/rgb32f), source exact / with margin / with exactly the promised padding; reverse_kernel size, centre and values; detail::convolve_2d for kernels 1..6 with every centre against the zero-extended 2-D sum; extend_row/extend_col/extend_boundary x {padded, zero, constant} x 0..4 pixels.",
+        "level_note": "The sums are recomputed independently per output channel; column variants are checked against the same sums on the other axis rather than against the row variant, so a fault common to both would still show.",
+    },
     "C13": {
         "technique": "rapidcheck-generated valid files (GIL writers, hand-serialised BMP/TARGA/PNM variants, corpus files) and read recipes; differential of every read path against the full native read_image; guard-page destinations with identity tags",
         "level_text": "Exploration: 15k (quick) / 240k (thorough) (file, recipe) cases over 6 formats and 97 file variants (bottom-up/top-down, 1/4/8-bit palette, RLE4/RLE8, 16/24/32-bit BMP; ASCII and binary PNM; raw/RLE x both origins TARGA; PNG incl. PngSuite palette/tRNS/16-bit; strip/tile x none/LZW/packbits TIFF; JPEG). Per file: three device kinds, read_image_info, EVERY sub-rectangle for images up to 6x6 (11 sampled otherwise), read_view exact / too small in guard-page memory, read_and_convert_image/view to four pixel types vs color_convert of the native read, scanline rows, any_image.",
